@@ -24,7 +24,7 @@ func init() {
 		depth := 4
 		budget := 150 * time.Second
 		if tier == "thorough" {
-			depth, budget = 6, 25*time.Minute
+			depth, budget = 6, 20*time.Minute
 		}
 		var us []Unit
 		for _, mv := range []uint32{3, 4} {
